@@ -5,3 +5,38 @@ package smtpconn
 
 // ---- C16 ----
 //@ exempt (*smtpconn.C).wrapClientErr/literal:SMTPError#0 : relayed: copies the remote server's reply code and enhanced code verbatim (the statement is about failures maddy itself generates)
+
+// ---- C09: the recipients recorded as accepted on a connection ----
+// Rcpt records the address it was given (not the form converted for a next hop without SMTPUTF8) iff the server
+// accepted the recipient; Mail starts a new transaction: nothing recorded for an earlier transaction on the same
+// (pooled) connection survives it.
+//@ import gosmtp "github.com/emersion/go-smtp"
+// wrapClientErr annotates a client error; it touches nothing but the 552->452 rewrite inside the error value itself.
+//@ func (*C).wrapClientErr
+//@   prop C09
+//@   requires c != nil
+//@   modifies gosmtp.SMTPError.Code, gosmtp.SMTPError.EnhancedCode
+//@   ensures (result == nil) == (err == nil)
+//@ func (*C).Rcpt
+//@   prop C09
+//@   requires c != nil && c.cl != nil
+//@   modifies c.rcpts, *c.cl, gosmtp.SMTPError.Code, gosmtp.SMTPError.EnhancedCode
+//@   ensures result == nil ==> len(c.rcpts) == old(len(c.rcpts)) + 1 && c.rcpts[len(c.rcpts)-1] == to
+//@   ensures result == nil ==> (forall k int :: 0 <= k && k < old(len(c.rcpts)) ==> c.rcpts[k] == old(c.rcpts)[k])
+//@   ensures result != nil ==> c.rcpts == old(c.rcpts)
+//@ func (*C).Mail
+//@   prop C09
+//@   requires c != nil && c.cl != nil
+//@   modifies c.rcpts, *c.cl, gosmtp.SMTPError.Code, gosmtp.SMTPError.EnhancedCode
+//@   ensures result == nil ==> len(c.rcpts) == 0
+//@ func (*C).Rcpts
+//@   prop C09
+//@   requires c != nil
+//@   ensures result == c.rcpts
+// Data / LMTPData transmit the message; the recipient list of the connection is assigned only by Mail and Rcpt
+// (trusted frame: the bodies use the go-smtp client and io only).
+//@ func (*C).Data
+//@   prop C09
+//@   trusted
+//@   requires c != nil
+//@   modifies *c.cl, gosmtp.SMTPError.Code, gosmtp.SMTPError.EnhancedCode
